@@ -50,6 +50,9 @@ class Tr:
         self.optional = set(optional_exprs)   # source text of expressions that may be None
         self.cls_vars = set(cls_vars)         # names holding a classification
         self.list_exprs = {'self.classifications'}
+        self.generic = set()          # names of lists whose elements are of an abstract type
+        self.opt_params = set()       # optional parameters (`x is None` tests become matches)
+        self.ret_optional = False     # the function returns an Optional value
         self.declared = []            # stack of sets of declared names
         self.mutable = set()
 
@@ -78,6 +81,13 @@ class Tr:
                 return '(← %s)' % self.calls[s]
             if isinstance(n, ast.Call) and isinstance(n.func, ast.Name) and n.func.id == 'len' and len(n.args) == 1:
                 return '(%s).length' % self.e(n.args[0])
+            if isinstance(n, ast.Call) and isinstance(n.func, ast.Name) and n.func.id == 'int' and len(n.args) == 1:
+                return self.e(n.args[0])          # int() of a floor division of naturals
+            if isinstance(n, ast.Call) and isinstance(n.func, ast.Name) and n.func.id == 'all' and len(n.args) == 1 \
+                    and isinstance(n.args[0], ast.GeneratorExp) and len(n.args[0].generators) == 1 \
+                    and not n.args[0].generators[0].ifs and isinstance(n.args[0].generators[0].target, ast.Name):
+                g = n.args[0].generators[0]
+                return '((%s).all fun %s => %s)' % (self.e(g.iter), g.target.id, self.b(n.args[0].elt))
             raise Unsupported('expression ' + s)
         if isinstance(n, ast.Tuple):
             if len(n.elts) == 2 and all(isinstance(x, ast.Constant) and isinstance(x.value, str) for x in n.elts):
@@ -98,7 +108,11 @@ class Tr:
                     if isinstance(lo, ast.UnaryOp) and isinstance(lo.op, ast.USub):
                         return '(%s).drop ((%s).length - %s)' % (base, base, self.atom(lo.operand))
                     return '(%s).drop %s' % (base, self.atom(lo))
+                if lo is not None and hi is not None:
+                    return '((%s).drop %s).take (%s - %s)' % (base, self.atom(lo), self.atom(hi), self.atom(lo))
                 raise Unsupported('slice ' + self.src(n))
+            if isinstance(n.value, ast.Name) and n.value.id in self.generic:
+                return '(%s)[%s]?' % (base, self.e(sl))
             return '(%s)[%s]!' % (base, self.e(sl))
         if isinstance(n, ast.BinOp) and isinstance(n.op, ast.Add) and (self.is_list(n.left) or self.is_list(n.right)):
             return '(%s ++ %s)' % (self.e(n.left), self.e(n.right))
@@ -139,6 +153,10 @@ class Tr:
                 parts.append(self.cmp(left, op, right))
                 left = right
             return parts[0] if len(parts) == 1 else '(' + ' && '.join(parts) + ')'
+        if isinstance(n, ast.Call):
+            return self.e(n)
+        if isinstance(n, ast.Constant) and isinstance(n.value, bool):
+            return 'true' if n.value else 'false'
         raise Unsupported('condition ' + self.src(n))
 
     def cmp(self, l, op, r):
@@ -152,6 +170,12 @@ class Tr:
         if type(op) not in sym:
             raise Unsupported('comparison ' + type(op).__name__)
         le, re_ = self.e(l), self.e(r)
+        if type(op) in (ast.Eq, ast.NotEq) and (le.endswith(']?') != re_.endswith(']?')):
+            # an element compared with `seq[i]` of a list of abstract elements: `seq[i]?` is an Option
+            if le.endswith(']?'):
+                re_ = '(some %s)' % re_
+            else:
+                le = '(some %s)' % le
         if type(op) in (ast.Eq, ast.NotEq):
             return '(%s %s %s)' % (le, sym[type(op)], re_)
         return '(decide (%s %s %s))' % (le, sym[type(op)], re_)
@@ -242,6 +266,20 @@ class Tr:
             if name == 'IndexError':
                 return ['%sthrow PyErr.indexError' % ind]
             raise Unsupported('raise ' + self.src(s))
+        if isinstance(s, ast.If) and isinstance(s.test, ast.Compare) and len(s.test.ops) == 1 \
+                and isinstance(s.test.ops[0], ast.Is) and isinstance(s.test.left, ast.Name) \
+                and s.test.left.id in self.opt_params and isinstance(s.test.comparators[0], ast.Constant) \
+                and s.test.comparators[0].value is None and s.orelse:
+            x = s.test.left.id
+            out = ['%smatch %s with' % (ind, x), '%s| none =>' % ind]
+            out += self.block(s.body, ind + '  ')
+            out.append('%s| some %s =>' % (ind, x))
+            out += self.block(s.orelse, ind + '  ')
+            return out
+        if isinstance(s, ast.Assert):
+            if isinstance(s.test, ast.Constant) and s.test.value is False:
+                return ['%sthrow PyErr.assertionError' % ind]
+            raise Unsupported('assert ' + self.src(s.test))
         if isinstance(s, ast.If):
             out = ['%sif %s then' % (ind, self.b(s.test))]
             out += self.block(s.body, ind + '  ')
@@ -267,6 +305,11 @@ class Tr:
                     and isinstance(s.target, ast.Name):
                 head = '%sfor %s in List.range %s do' % (ind, s.target.id, self.atom(it.args[0]))
                 self.declared.append({s.target.id})
+            elif isinstance(it, ast.Call) and isinstance(it.func, ast.Name) and it.func.id == 'range' and len(it.args) == 2 \
+                    and isinstance(s.target, ast.Name):
+                head = '%sfor %s in List.range\' %s (%s - %s) do' % (ind, s.target.id, self.atom(it.args[0]),
+                                                                 self.atom(it.args[1]), self.atom(it.args[0]))
+                self.declared.append({s.target.id})
             elif isinstance(s.target, ast.Name):
                 head = '%sfor %s in %s do' % (ind, s.target.id, self.e(it))
                 self.declared.append({s.target.id})
@@ -278,6 +321,12 @@ class Tr:
         raise Unsupported('statement ' + type(s).__name__)
 
     def ret(self, n):
+        if self.ret_optional:
+            if isinstance(n, ast.Constant) and n.value is None:
+                return 'none'
+            if self.src(n) in self.optional:
+                return self.e(n)
+            return '(some %s)' % self.e(n)
         return self.e(n)
 
 
@@ -303,6 +352,7 @@ open Cls
 inductive PyErr
   | valueError
   | indexError
+  | assertionError
 deriving DecidableEq, Repr
 
 /-- a classification as the pair of strings the Python code unpacks it into -/
@@ -365,6 +415,30 @@ def translate():
                 {'self.get_valid_classes()': 'get_valid_classes self_shape'},
                 optional_exprs=['self.n_slices'], cls_vars=['classification']),
              '`DcmMetaExtension.get_multiplicity` (dcmmeta.py), translated statement by statement')
+    # ---- _get_const_period
+    f = find_func(dm, 'DcmMetaExtension', '_get_const_period')
+    if f is None:
+        missing.append('_get_const_period: not found')
+    else:
+        tr = Tr({'self.shape': 'self_shape', 'self.n_slices': 'self_n_slices'},
+                {'self.get_multiplicity(src_cls)': 'get_multiplicity self_shape self_n_slices src_cls',
+                 'self.get_multiplicity(dest_cls)': 'get_multiplicity self_shape self_n_slices dest_cls'},
+                optional_exprs=['self.n_slices'])
+        tr.ret_optional = True
+        emit('get_const_period', '(self_shape : List Nat) (self_n_slices : Option Nat) (src_cls dest_cls : Cls) : Except PyErr (Option Nat)',
+             f.body, tr, '`DcmMetaExtension._get_const_period` (dcmmeta.py), translated statement by statement')
+    # ---- is_constant / is_repeating (module level)
+    for nm, sig in (('is_constant', '{α : Type} [DecidableEq α] (sequence : List α) (period : Option Nat) : Except PyErr Bool'),
+                    ('is_repeating', '{α : Type} [DecidableEq α] (sequence : List α) (period : Nat) : Except PyErr Bool')):
+        f = find_func(dm, None, nm)
+        if f is None:
+            missing.append(nm + ': not found')
+            continue
+        tr = Tr({}, {})
+        tr.generic = {'sequence'}
+        if nm == 'is_constant':
+            tr.opt_params = {'period'}
+        emit(nm, sig, f.body, tr, '`%s` (dcmmeta.py), translated statement by statement' % nm)
     # ---- get_meta: the `if not index is None:` block and the final return
     f = find_func(dm, 'NiftiWrapper', 'get_meta')
     blk = None
